@@ -229,12 +229,22 @@ proof fn lemma_lbm(n: nat)
 
 spec fn amap(es: Seq<u32>) -> IMap<u32, u8> { IMap::new(|slot: u32| ahas(es, slot), |slot: u32| aget(es, slot)) }
 
-// initial table size: a static lookup table in the real code (opaque; only its range is assumed)
-#[verifier::external_body]
+// initial table size: a static lookup table in the real code (the table itself is verified: R21 turns the local `static` into a `let`)
+spec fn lg_aux_tbl() -> Seq<u8> { seq![0u8, 2, 2, 2, 2, 2, 2, 3, 3, 3, 4, 4, 5, 5, 6, 7, 8, 9, 10, 11, 12, 13, 14, 15, 16, 17, 18] }
 fn lg_aux_arr_ints(lg_config_k: u8) -> (r: u8)
   requires lg_config_k <= 26
-  ensures 4 <= lg_config_k <= 21 ==> 2 <= r <= lg_config_k
-{ unimplemented!() }
+  ensures /*@C02.aux.lg_size_table*/ r == lg_aux_tbl()[lg_config_k as int],
+    /*@C02.aux.lg_size_range*/ 4 <= lg_config_k <= 21 ==> 2 <= r <= lg_config_k
+{
+    let LG_AUX_ARR_INTS: &[u8] = &[
+        0, 2, 2, 2, 2, 2, 2, 3, 3, 3, // 0-9
+        4, 4, 5, 5, 6, 7, 8, 9, 10, 11, // 10-19
+        12, 13, 14, 15, 16, 17, 18, // 20-26
+    ];
+    proof { assert(/*@C02.aux.lg_size_table*/ LG_AUX_ARR_INTS@ =~= lg_aux_tbl()); }
+
+    LG_AUX_ARR_INTS[lg_config_k as usize]
+}
 
 // what a client (Array4) may rely on: the table invariant plus the range of the stored pairs
 spec fn arange(v: IMap<u32, u8>, lgk: u8) -> bool {
